@@ -11,6 +11,7 @@ import asyncio
 import hashlib
 import io
 import json
+import zlib
 import os
 import tempfile
 import re
@@ -496,6 +497,11 @@ class ChunkInput:
 
     def __init__(self, chunks):
         self.chunks = [c for c in chunks if c]
+        # the two servers need not cut the upload alike: for every other body the WSGI server hands it over in one
+        # piece while the ASGI server delivers the pieces of the line (what the application sees must not depend on it)
+        whole = b"".join(self.chunks)
+        if whole and zlib.crc32(whole) % 2 == 0:
+            self.chunks = [whole]
 
     def read(self, size=-1):
         return self.chunks.pop(0) if self.chunks else b""
@@ -793,7 +799,8 @@ def build_response(M, r, world, is_asgi):
         else:
             resp = M.StreamResponse(it, r["status"], headers, content_type=r["content_type"])
     elif k == "z":
-        evs = [dict(e) for e in r["events"]]
+        _seen = {}
+        evs = [_seen.setdefault(tuple(sorted(e.items())), dict(e)) for e in r["events"]]   # equal events: one dict object, yielded again
         it = _agen(evs) if is_asgi else _gen(evs)
         kw = {} if r["charset"] is None else {"charset": r["charset"]}
         resp = M.SendEventResponse(it, r["status"], headers, ping_interval=30, **kw)
@@ -1293,6 +1300,10 @@ def split_chunks(rng, data, n=None):
     if n == 1 or len(data) < 2:
         return [data] if data or rng.random() < 0.5 else []
     cuts = sorted(rng.randrange(0, len(data) + 1) for _ in range(n - 1))
+    # cuts where they hurt: inside the line break in front of a delimiter, inside the delimiter, inside a header block
+    marks = [i + 1 for i in range(len(data) - 3) if data[i:i + 4] == b"\r\n--"]
+    if marks and rng.random() < 0.6:
+        cuts = sorted(set(cuts + rng.sample(marks, min(len(marks), rng.choice([1, 1, 2])))))
     out, prev = [], 0
     for c in cuts + [len(data)]:
         out.append(data[prev:c])
